@@ -306,6 +306,10 @@ pub trait Prop: Sync {
         let _ = merged;
         None
     }
+    /// Distinct non-trivial case count when the explorer (not the per-case check) decides distinctness.
+    fn distinct_override(&self) -> Option<u64> {
+        None
+    }
     /// A run that observed none of these outcome classes is vacuous (machinery failure).
     fn required_outcomes(&self) -> Vec<&'static str> {
         vec![]
@@ -647,7 +651,7 @@ pub fn run_prop<P: Prop>(p: &P, cfg: &RunCfg) -> i32 {
         id,
         cfg.tier.name(),
         merged.evaluations,
-        merged.nontrivial,
+        p.distinct_override().unwrap_or(merged.nontrivial),
         violations,
         known_counts.len(),
         !stopped,
@@ -736,7 +740,7 @@ fn write_evidence<P: Prop>(
         .unwrap_or((m.evaluations.max(1), m.transitions.max(m.evaluations.saturating_sub(1)).max(1)));
     let mut coverage = json!({
         "evaluations": m.evaluations,
-        "distinct_nontrivial": m.nontrivial,
+        "distinct_nontrivial": p.distinct_override().unwrap_or(m.nontrivial),
         "rule": p.rule(cfg.tier),
         "samples": samples,
         "states": states,
